@@ -1731,6 +1731,9 @@ spec:
         parsed_modifiers.intermediate_data.is_some() ==> parsed_modifiers.intermediate_data.unwrap().sp().ok(),
     ensures final(bp).wf(), final(bp).same(old(bp)), final(bp).cur() == old(bp).cur(),
         r == parsed_modifiers.flags, only_diags(final(bp).evs(), old(bp).evs()),
+        // [C07] exactly one error, exactly when an intermediate preparation reference is written on something that is not an ingredient
+        parsed_modifiers.intermediate_data.is_none() ==> final(bp).evs() == old(bp).evs(),     // [C07]
+        parsed_modifiers.intermediate_data.is_some() ==> final(bp).evs().len() == old(bp).evs().len() + 1 && final(bp).evs().last() is Error,     // [C07]
 @*/
 /*@ fn src/parser/step.rs check_empty_name
 tags C03 C04 C07
@@ -2016,7 +2019,7 @@ spec:
         old(tokens).decrease().is_some() ==> (*final(tokens)).decrease().is_some() && (*final(tokens)).decrease().unwrap() <= old(tokens).decrease().unwrap(),
 @*/
 /*@ fn src/parser/step.rs parse_modifiers
-tags C03 C04 C07
+tags C02 C03 C04 C07
 ret r
 rewrite `modifiers |= new_m;` => `modifiers.insert(new_m);`
 enter:
@@ -2029,6 +2032,8 @@ spec:
     ensures final(bp).wf(), final(bp).same(old(bp)), final(bp).cur() == old(bp).cur(), only_diags(final(bp).evs(), old(bp).evs()),
         r.flags.sp().ok(), r.intermediate_data.is_some() ==> r.intermediate_data.unwrap().sp().ok(),     // [C04]
         r.flags.val().has(Modifiers::RECIPE) ==> exists|i: int| 0 <= i < modifiers_tokens@.len() && (#[trigger] modifiers_tokens@[i]).kind == TokenKind::At,
+        // [C02] with the intermediate-preparations extension off no reference target is ever read from the modifiers
+        !old(bp).ext().has(Extensions::INTERMEDIATE_PREPARATIONS) ==> r.intermediate_data.is_none(),     // [C02]
 after `let mut tokens = modifiers_tokens.iter();`:
         let ghost mt = modifiers_tokens@;
         let ghost inter = bp.ext().has(Extensions::INTERMEDIATE_PREPARATIONS);
@@ -2039,6 +2044,7 @@ loop 0:
                 mt == modifiers_tokens@, toks_ok(mt), inter == bp.ext().has(Extensions::INTERMEDIATE_PREPARATIONS),
                 modifiers_span.ok(),
                 inter_data_ok(intermediate_data),
+                !inter ==> intermediate_data.is_none(),     // [C02]
                 0 <= idx <= mt.len(), vals(tokens.remaining()) == mt.skip(idx), mods_ok(mt, idx, inter),
                 modifiers.bits & 1 == 1 ==> exists|i: int| 0 <= i < mt.len() && (#[trigger] mt[i]).kind == TokenKind::At,
                 tokens.decrease().is_some(),
@@ -2134,6 +2140,9 @@ spec:
     ensures final(bp).wf(), final(bp).same(old(bp)), only_diags(final(bp).evs(), old(bp).evs()),
         // [C04] [C05] the event spans exactly the consumed tokens
         r.is_some() ==> final(bp).cur() > old(bp).cur() && comp_at(r.unwrap(), old(bp).off(), final(bp).off()),
+        // [C07] the recipe modifier is forbidden on cookware: when the item carries it, the last thing queued is that error
+        r.is_some() && r.unwrap() is Cookware && r.unwrap()->Cookware_0.val().modifiers.val().has(Modifiers::RECIPE)
+            ==> final(bp).evs().len() > old(bp).evs().len() && final(bp).evs().last() is Error,     // [C07]
 closure @ `|q| q.value` `Quantity<'i>` ret `v: QuantityValue`:
         ensures v == q.value
 closure @ `|t| t.kind == T![@]` `&&Token` ret `b: bool`:
